@@ -103,7 +103,14 @@ def specs(ctx, n):
     return out
 
 
+def pre_build(ctx):
+    import gen_units
+    gen_units.pre_build(ctx, "translate_results")
+
+
 def run(ctx):
+    import gen_units
+    gen_units.g_unit(ctx, "translate_results")
     u = ctx.unit("D:search(rows)", "D",
                  "1-3 search() calls, rotating optimizers, objectives returning a bare score or (score, dict) with 0-3 metric "
                  "keys as python/numpy/int scalars, non-finite scores, memory on/off, every verbosity setting, step API; "
